@@ -196,7 +196,7 @@ func coqHx(b []byte) string {
 }
 func coqU64(x uint64) string      { return fmt.Sprintf("%d%%N", x) }
 func coqStr(s string) string      { return `"` + s + `"` }
-func coqOptBig(x *big.Int) string { return coqOptZ(x) }
+func txcCoqOptBig(x *big.Int) string { return coqOptZ(x) }
 func coqBytesLit(b []byte) string { return coqHx(b) }
 
 func coqTo(to *common.Address) string {
@@ -337,7 +337,7 @@ func senderStr(signer ethtypes.Signer, tx *ethtypes.Transaction) string {
 	return a.Hex()
 }
 
-func bigEq(a, b *big.Int) bool {
+func txcBigEq(a, b *big.Int) bool {
 	if a == nil || b == nil {
 		return a == nil && b == nil
 	}
@@ -353,14 +353,14 @@ func tcFieldsDiff(a, b *ethtypes.Transaction) []string {
 		}
 	}
 	add("type", a.Type() == b.Type())
-	add("chain_id", bigEq(a.ChainId(), b.ChainId()))
+	add("chain_id", txcBigEq(a.ChainId(), b.ChainId()))
 	add("nonce", a.Nonce() == b.Nonce())
-	add("gas_price", bigEq(a.GasPrice(), b.GasPrice()))
-	add("gas_tip_cap", bigEq(a.GasTipCap(), b.GasTipCap()))
-	add("gas_fee_cap", bigEq(a.GasFeeCap(), b.GasFeeCap()))
+	add("gas_price", txcBigEq(a.GasPrice(), b.GasPrice()))
+	add("gas_tip_cap", txcBigEq(a.GasTipCap(), b.GasTipCap()))
+	add("gas_fee_cap", txcBigEq(a.GasFeeCap(), b.GasFeeCap()))
 	add("gas", a.Gas() == b.Gas())
 	add("to", (a.To() == nil) == (b.To() == nil) && (a.To() == nil || *a.To() == *b.To()))
-	add("value", bigEq(a.Value(), b.Value()))
+	add("value", txcBigEq(a.Value(), b.Value()))
 	add("data", bytes.Equal(a.Data(), b.Data()))
 	ala, alb := a.AccessList(), b.AccessList()
 	same := len(ala) == len(alb)
@@ -373,9 +373,9 @@ func tcFieldsDiff(a, b *ethtypes.Transaction) []string {
 	add("access_list", same)
 	va, ra, sa := a.RawSignatureValues()
 	vb, rb, sb := b.RawSignatureValues()
-	add("v", bigEq(va, vb))
-	add("r", bigEq(ra, rb))
-	add("s", bigEq(sa, sb))
+	add("v", txcBigEq(va, vb))
+	add("r", txcBigEq(ra, rb))
+	add("s", txcBigEq(sa, sb))
 	add("protected", a.Protected() == b.Protected())
 	return d
 }
@@ -642,7 +642,7 @@ func tcRunCase(id string, in tcInput) (c Case, err error) {
 		obs.Msg = map[string]string{"fee": optS(mf.Fee), "cost": optS(mf.Cost), "price_nil_basefee": optS(mf.PriceNil), "price": optS(mf.Price), "eff_fee": optS(mf.EffFee), "eff_cost": optS(mf.EffCost)}
 		obs.Geth = map[string]string{"fee": gethFee.String(), "cost": tx.Cost().String(), "price_nil_basefee": gmNil.GasPrice().String(), "price": gPrice.String(), "eff_fee": gEffFee.String(), "eff_cost": gEffCost.String()}
 		cmp := func(name string, got, want *big.Int) {
-			if !bigEq(got, want) {
+			if !txcBigEq(got, want) {
 				fail("%s derived from the message is %s, go-ethereum's figure for the original transaction is %s", name, optS(got), want)
 			}
 		}
